@@ -90,7 +90,7 @@ def handle(c):
     os.makedirs(d)
     world = c['world']
     tool = c['tool']
-    gfa, gtf_, _ = G.write_world(world, d)
+    gfa, gtf_, _prot = G.write_world(world, d)
     o = c['opts']
     args = argparse.Namespace()
     args.command = {'star': 'parseSTARFusion', 'fc': 'parseFusionCatcher', 'arriba': 'parseArriba'}[tool]
@@ -151,4 +151,22 @@ def handle(c):
         logger.removeHandler(cap)
         logger.setLevel(old_level)
         logger.propagate = old_prop
+    if c.get('argv'):
+        # the same run through the real argument parser, every option on the command line
+        import _argv_route as AR
+        out2 = os.path.join(d, 'out_argv.gvf')
+        ref = AR.reference_args(c, gfa, gtf_, _prot, d)
+        if isinstance(ref, dict):
+            out['cli_argv'] = ref
+        else:
+            argv = [args.command, '-i', p, '-o', out2, '--source', 'Fusion', '--debug-level', 'INFO', '--quiet'] + ref
+            if tool == 'star':
+                argv += ['--min-est-j', repr(o['min_est_j'])]
+            elif tool == 'fc':
+                argv += ['--max-common-mapping', str(o['max_common']), '--min-spanning-unique', str(o['min_unique'])]
+            else:
+                argv += ['--min-split-read1', str(o['min_sr1']), '--min-split-read2', str(o['min_sr2']), '--min-confidence', o['min_conf']]
+            if o.get('skip_failed'):
+                argv += ['--skip-failed']
+            out['cli_argv'] = AR.run(argv, out2)
     return out
